@@ -27,7 +27,14 @@ func verifEnvValue(label string) (any, bool) {
 	case 4:
 		return system.Collection{}, true
 	case 5:
-		return system.Collection{system.Integer(1), 42}, false
+		// a collection nesting an unsupported Go value at any position (also inside a nested collection)
+		bad := any(42)
+		if verifrt.NondetBool(label + ".nestedBad") {
+			bad = system.Collection{system.Integer(2), 42, system.Integer(3)}
+		}
+		c := system.Collection{system.Integer(1), system.String("x"), system.Integer(4)}
+		c[verifrt.Choose(label+".badPos", 3)] = bad
+		return c, false
 	case 6:
 		return 42, false
 	default:
